@@ -230,9 +230,9 @@ PROPS['C19'] = dict(
 )
 
 PROPS['C20'] = dict(
-    lean_modules=['Model.EventSys', 'Model.Block', 'Model.FeeMarket', 'Properties.C06', 'Properties.C09', 'Properties.C13', 'Model.LogFilter', 'Properties.C20', 'Properties.C20Conc', 'Properties.C20Filter', 'Facts.EventSys', 'Facts.C09', 'Facts.Panics', 'Facts.TieFeeMarket', 'Facts.TieQuery', 'Facts.TieMeta'],
+    lean_modules=['Model.EventSys', 'Model.Block', 'Model.FeeMarket', 'Properties.C06', 'Properties.C09', 'Properties.C13', 'Model.LogFilter', 'Properties.C20', 'Properties.C20Conc', 'Properties.C20Filter', 'Facts.EventSys', 'Facts.C09', 'Facts.Panics', 'Facts.TieFeeMarket', 'Facts.TieQuery', 'Facts.TieMeta', 'Facts.KeyCapacity'],
     facts=['*'],
-    theorems=['tie_calculate_base_fee', 'tie_bin_search_total', 'fact_translated_all', 'C20_rejected_is_noop', 'C20_ante_panic_charges_block_gas_only', 'C20_dropped_is_noop', 'C20_isolation', 'C20_isolation_replace', 'runItems_append',
+    theorems=['fact_key_prefixes_not_shared_buffers', 'tie_calculate_base_fee', 'tie_bin_search_total', 'fact_translated_all', 'C20_rejected_is_noop', 'C20_ante_panic_charges_block_gas_only', 'C20_dropped_is_noop', 'C20_isolation', 'C20_isolation_replace', 'runItems_append',
               'C09_total', 'C09_total_no_divzero', 'C09_zero_target_keeps', 'C13_endBlock_total', 'C13_inv_block',
               'C20_no_send_on_closed', 'inv_step', 'inv_run', 'C20_original_crashes', 'C20_original_drops', 'C20_lock_needed', 'C20_index_needed',
               'C20_filter_total', 'C20_filterLogs_total', 'C20_guard_needed', 'topicLoop_total', 'fact_filterlogs_guards', 'fact_basefee_guards', 'fact_one_base_fee', 'fact_maxgas_guard', 'fact_block_panic_sites', 'fact_consume_locks_across_send', 'fact_install_shape', 'fact_uninstall_shape', 'fact_join_indexes', 'fact_context_guarded'],
